@@ -317,15 +317,18 @@ Record fplan := {
   f_mocks : list (mock * cfg)        (* in the order of Append *)
 }.
 
-(* default values are Go templates (C11); the only ones the model must understand are the
-   defaults themselves, whose expansion for a given interface is the argument [ex] *)
+(* Config.ParseTemplates (C11) renders the templated string parameters of a mock's own config
+   for the mock's interface.  The template engine is not modelled: the rendering of every
+   templated string occurring in the configuration (the defaults included) for a given
+   interface is the argument [ex].  What matters here is that it is applied per mock, to that
+   mock's copy of the config. *)
 Definition expand (ex : list (str * str)) (raw : str) : str :=
   match get raw ex with Some x => x | None => raw end.
 
 Definition expanded (ex : list (str * str)) (c : cfg) : cfg :=
   let e p := match c_ptr c p with Some (SStr s) => Some (SStr (expand ex s)) | o => o end in
   let c1 := {| c_ptr := fun p => match p with
-                                 | PDir | PFileName | PPkgName | PStructName => e p
+                                 | PDir | PFileName | PPkgName | PStructName | PTemplateSchema => e p
                                  | _ => c_ptr c p
                                  end;
                c_td := c_td c; c_rt := c_rt c; c_esr := c_esr c |} in
